@@ -12,11 +12,12 @@
     adjacent_not_transparent backslash_not_transparent placeholder_text_raises percent_raises
     drop_nested_unbalanced fragments_looked_up_not_extracted
     default_cfg_include_attrs i18n_directives_sort_first contexted_table
-    lookups_subset_extract_partial
+    lookups_subset_extract_partial choose_identity
 -/
 import Genshi.Lemmas.I18nTree
 import Genshi.Lemmas.I18nStarts
 import Genshi.Lemmas.I18nLookups
+import Genshi.Lemmas.I18nChoose
 import Genshi.Model.I18nExtract
 namespace Genshi.Props.C19
 open Genshi Genshi.I18n
@@ -283,6 +284,41 @@ example :
     coalesce (flattenM (trimF [.text [' ','H','i',',',' '], .elem ⟨[], ['b']⟩ [] [.expr ['n'] 0 []], .text ['!',' ']])) =
       [.text ['H','i',',',' '], .start ⟨[], ['b']⟩ [], .expr 0 [], .end_ ⟨[], ['b']⟩, .text ['!']] := by
   refine ⟨by decide +kernel, by decide +kernel, by decide +kernel, by decide +kernel⟩
+
+/-- **identity_transparent, plural choice** (`ChooseDirective.__call__` with
+    `ChooseBranchDirective.__call__`).  For `pre <ts i18n:singular>Fs</ts> mid
+    <tp i18n:plural>Fp</tp> post` (no further branch in `pre`, `mid`, `post`; both branches
+    clean in the sense of `translate_format_id`) and a catalogue whose `ngettext` answers with
+    the selected message id unchanged, the output is `pre`, the selected branch — its content
+    unchanged up to the white space at its edges — in the place of the singular branch, `mid`,
+    `post`; the other branch is dropped.  (The fragment-wise look-ups of the translation pass
+    inside the branches are finding C19-fragments and leave this theorem alone: it is about the
+    directive, whatever its input stream is.) -/
+theorem choose_identity (pre mid post : List TEvent) (ts tp : QName) (as ap : TAttrs)
+    (Fs Fp : List MNode) (es ep : List Str) (params : List Str) (isPlural : Bool)
+    (hpre : ∀ e ∈ pre, isBranchSub e = false) (hmid : ∀ e ∈ mid, isBranchSub e = false)
+    (hpost : ∀ e ∈ post, isBranchSub e = false)
+    (hps : params = namesM Fs ++ es) (hpp : params = namesM Fp ++ ep)
+    (hcs : cleanM Fs = true) (hnas : deepNoAdjM Fs = true) (hnds : (namesM Fs).Nodup)
+    (hcp : cleanM Fp = true) (hnap : deepNoAdjM Fp = true) (hndp : (namesM Fp).Nodup) :
+    chooseCall params isPlural (fun s p => if isPlural then p else s)
+        (pre ++ .sub [.singular] (.start ts as :: (flattenM Fs ++ [.end_ ts])) ::
+          (mid ++ .sub [.plural] (.start tp ap :: (flattenM Fp ++ [.end_ tp])) :: post)) =
+      some (.ok (pre ++ ((if isPlural then .start tp ap :: (coalesce (flattenM (trimF Fp)) ++ [.end_ tp])
+                          else .start ts as :: (coalesce (flattenM (trimF Fs)) ++ [.end_ ts])) ++ (mid ++ post)))) :=
+  chooseCall_identity pre mid post ts tp as ap Fs Fp es ep params isPlural hpre hmid hpost hps hpp
+    hcs hnas hnds hcp hnap hndp
+
+/-- `<div i18n:choose="n; n"> <p i18n:singular="">One ${n} coin</p> <p i18n:plural="">${n} coins </p> </div>`, plural chosen -/
+example :
+    chooseCall [['n']] true (fun _ p => p)
+      [.start ⟨[], ['d']⟩ [], .text [' '],
+       .sub [.singular] [.start ⟨[], ['p']⟩ [], .text ['O','n','e',' '], .expr 0 [], .text [' ','c','o','i','n'], .end_ ⟨[], ['p']⟩],
+       .text [' '],
+       .sub [.plural] [.start ⟨[], ['p']⟩ [], .expr 0 [], .text [' ','c','o','i','n','s',' '], .end_ ⟨[], ['p']⟩],
+       .text [' '], .end_ ⟨[], ['d']⟩] =
+    some (.ok [.start ⟨[], ['d']⟩ [], .text [' '], .start ⟨[], ['p']⟩ [], .expr 0 [], .text [' ','c','o','i','n','s'],
+               .end_ ⟨[], ['p']⟩, .text [' '], .text [' '], .end_ ⟨[], ['d']⟩]) := by decide +kernel
 
 /-! ## witnesses: the excluded inputs are real (known findings) -/
 
